@@ -1,7 +1,46 @@
-(* Proofs/Tactics.v -- small tactics shared by the proof files *)
-From ND Require Export RModel.
+(* Proofs/Tactics.v -- tactics shared by the proof files *)
+From Coq Require Export Nsatz.
+From ND Require Export RModel Derivs.
+From Coquelicot Require Export Coquelicot.
+Local Open Scope R_scope.
+
 Ltac dmat := repeat match goal with m : mat R |- _ => destruct m as [? ? ?] end.
 (* H : In S [b1; ...; bn]  -- run tac once per block *)
 Ltac each_block H tac := repeat (destruct H as [<-|H]; [tac|]); try solve [destruct H].
+Ltac side := repeat match goal with |- _ /\ _ => split end; auto; try lra; try nra.
 Ltac jet_ring := rcbv; ring.
-Ltac jet_field := rcbv; field; auto.
+Ltac jet_field := rcbv; field; side.
+
+(* is_derive goals about generated code: reduce the function and the claimed derivative, not is_derive itself *)
+Ltac rcbv_derive := match goal with |- is_derive ?f ?x ?l =>
+  let f' := eval rred in f in let l' := eval rred in l in change (is_derive f' x l') end.
+
+(* rational identities with square roots: make every sqrt and every inverse an atom with its defining polynomial
+   relation, then decide ideal membership *)
+Ltac unify_sqrts := repeat match goal with |- context [sqrt ?a] => match goal with |- context [sqrt ?b] =>
+   tryif constr_eq a b then fail else (replace a with b by (field; side)) end end.
+Ltac sqrt_atoms := repeat match goal with |- context [sqrt ?a] =>
+  let s := fresh "s" in let Hs := fresh "Hs" in let Hn := fresh "Hn" in
+  assert (Hs : sqrt a * sqrt a = a) by (apply sqrt_sqrt; side);
+  assert (Hn : 0 < sqrt a) by (apply sqrt_lt_R0; side);
+  set (s := sqrt a) in *; clearbody s end.
+Ltac inv_atoms := unfold Rdiv in *; repeat match goal with |- context [/ ?a] =>
+   lazymatch a with context [/ _] => fail | _ => idtac end;
+   let r := fresh "r" in let Hr := fresh "Hr" in
+   assert (Hr : / a * a = 1) by (apply Rinv_l; side);
+   set (r := / a) in *; clearbody r end.
+Ltac keep_eqs := repeat match goal with H : ?T |- _ =>
+  lazymatch T with @eq R _ _ => fail | _ => lazymatch type of T with Prop => clear H end end end.
+Ltac rat_nsatz := unify_sqrts; sqrt_atoms; inv_atoms; keep_eqs; nsatz.
+
+Lemma cosh_pos x : 0 < cosh x.
+Proof. unfold cosh. pose proof (exp_pos x); pose proof (exp_pos (- x)); lra. Qed.
+Lemma inv_pos_div a : 0 < a -> 0 < 1 / a.
+Proof. intros; apply Rdiv_lt_0_compat; lra. Qed.
+Lemma inv_pos_mul a : 0 < a -> 0 < 1 * / a.
+Proof. intros; rewrite Rmult_1_l; apply Rinv_0_lt_compat; assumption. Qed.
+Lemma sqrt_one_div' a : sqrt (1 / a) = 1 / sqrt a.
+Proof. apply sqrt_one_div. Qed.
+Lemma sqrt_one_mul_inv a : sqrt (1 * / a) = 1 / sqrt a.
+Proof. apply (sqrt_one_div a). Qed.
+Ltac rat_nsatz' := rewrite ?sqrt_one_div', ?sqrt_one_mul_inv; unify_sqrts; sqrt_atoms; inv_atoms; keep_eqs; nsatz.
